@@ -321,16 +321,17 @@ impl MultiState {
             None => return Ok(()),
         };
 
-        // Track the total number of zombie lines on the screen. This must only happen once the
-        // draw is known to take place, since the zombies are reaped only after drawing.
-        self.zombie_lines_count += adjust;
-
         // If this draw is due to a `println`, then we need to erase all the zombie lines.
         // This is because `println` is supposed to appear above all other elements in the
-        // `MultiProgress`.
+        // `MultiProgress`. The zombies reaped by this very draw are still part of the previous
+        // frame and get erased with it, so only the lines of earlier zombies are added here.
         if extra_lines.is_some() {
             drawable.adjust_last_line_count(LineAdjust::Clear(self.zombie_lines_count));
             self.zombie_lines_count = VisualLines::default();
+        } else {
+            // Track the total number of zombie lines on the screen. This must only happen once
+            // the draw is known to take place, since the zombies are reaped only after drawing.
+            self.zombie_lines_count += adjust;
         }
 
         let mut draw_state = drawable.state();
